@@ -58,6 +58,8 @@ class PoolGen:
               "maxhosts": self.cfg.get("maxhosts", r.choice([0, 0, 1, 2, 3])),
               "fee": self.cfg.get("fee", r.choice([0, 10]))}
         minbal = self.cfg.get("minbal", r.choice(["off", "off", -50, 0, 40]))
+        if minbal is None:
+            minbal = r.choice([-50, 0, 40, 40])
         wmin = self.cfg.get("wmin", r.choice(["off", 5, 50]))
         op["hasmin"], op["minbal"] = (minbal != "off"), (0 if minbal == "off" else minbal)
         op["haswmin"], op["wmin"] = (wmin != "off"), (0 if wmin == "off" else wmin)
